@@ -165,13 +165,13 @@ example : KVLine [99, 111, 117, 110, 116, 58, 32, 48] ∧ KVLine [] := by
 
 /-- why the hypothesis on the header text is needed (the over-quantification the audit found): a header
     text containing the line `END`, or an earlier `file: . 7` entry, makes the real parser return 18 resp. 7
-    while `_write_header` announces 33 resp. 40 — `tck_file_roundtrip`'s "digits after the written
+    while `_write_header` announces 33 resp. 39 — `tck_file_roundtrip`'s "digits after the written
     `file: . `" would not see this. -/
 theorem tck_header_text_counterexample :
     (tckHeaderOffset (tckWriteFile (tckMagic ++ [10, 69, 78, 68]) [])).toOption = some 18 ∧
     Gen.tckHdrOffset (tckMagic ++ [10, 69, 78, 68]).length = 33 ∧
     (tckHeaderOffset (tckWriteFile (tckMagic ++ [10, 102, 105, 108, 101, 58, 32, 46, 32, 55]) [])).toOption = some 7 ∧
-    Gen.tckHdrOffset (tckMagic ++ [10, 102, 105, 108, 101, 58, 32, 46, 32, 55]).length = 40 := by
+    Gen.tckHdrOffset (tckMagic ++ [10, 102, 105, 108, 101, 58, 32, 46, 32, 55]).length = 39 := by
   refine ⟨by decide +kernel, by decide +kernel, by decide +kernel, by decide +kernel⟩
 
 
